@@ -141,8 +141,10 @@ def build_driver(flavour, driver, extra_cflags=(), extra_src=(), extra_ld=()):
     srcs = [os.path.join(HARNESS, driver + ".c"), os.path.join(HARNESS, "common.c")] + \
            [os.path.join(HARNESS, s) for s in extra_src]
     h = hashlib.sha256()
-    for p in srcs + [os.path.join(HARNESS, "common.h")]:
-        h.update(_read(p))
+    for fn in sorted(os.listdir(HARNESS)):      # every harness file (headers and .inc parts included)
+        if fn.endswith((".c", ".h", ".inc")):
+            h.update(fn.encode()); h.update(_read(os.path.join(HARNESS, fn)))
+    h.update(" ".join(srcs).encode())
     h.update(" ".join(list(extra_cflags) + list(extra_ld)).encode())
     exe = os.path.join(libdir, "%s-%s" % (driver, h.hexdigest()[:12]))
     if os.path.exists(exe):
@@ -150,7 +152,7 @@ def build_driver(flavour, driver, extra_cflags=(), extra_src=(), extra_ld=()):
     inc = ["-I" + os.path.join(REPO, "include"), "-I" + os.path.join(REPO, "lib"),
            "-I" + HARNESS, "-D" + GUARD]
     tmp = exe + ".tmp%d" % os.getpid()
-    cmd = [cc] + list(cflags) + list(extra_cflags) + inc + ["-Wall", "-Wno-unused-function"] + srcs + \
+    cmd = [cc] + list(cflags) + list(extra_cflags) + inc + ["-Wall", "-Wno-unused-function", "-Wno-misleading-indentation", "-Wno-comment"] + srcs + \
           [os.path.join(libdir, "libvorbis_all.a"), LIBOGG, "-lm"] + list(ldflags) + list(extra_ld) + ["-o", tmp]
     rc, txt, _ = _run(cmd)
     if rc != 0:
